@@ -23,7 +23,9 @@ Import-free.
 -/
 namespace QV.Store
 
-abbrev ObjId := Nat
+/-- object identities are natural numbers (a scoped macro rather than an `abbrev`, so that the type is
+syntactically `Nat` for `omega`) -/
+scoped macro "ObjId" : term => `(Nat)
 abbrev Tok := Nat
 abbrev Shape := List Nat
 
@@ -338,6 +340,18 @@ def stateDicts (h : Heap) (nets : List (String × ObjId)) : List (MKey × DVal) 
     | some net => net.params
     | none => [])))
 
+/-- `dict(metadata) if metadata else {}` : the entries `save` starts from (`None` and `{}` are falsy) -/
+def mdEntries (h : Heap) (md : Option ObjId) : MDict :=
+  match md with
+  | none => []
+  | some id => (h.dicts id).getD []
+
+/-- `metadata["unitary_dict"] = self.unitary_dict` when the state has one -/
+def saveMeta (st : NState) (e0 : MDict) : MDict :=
+  match st.ud with
+  | some u => aset e0 (.str "unitary_dict") u
+  | none => e0
+
 /-- `NeuralStateBase.save(location, metadata)` in the code's order.  `copyMd = true` is the code as it
 is (`dict(metadata) if metadata else {}`); `copyMd = false` is the pre-F5 code, where a non-empty
 caller dict is mutated in place (kept only to exhibit the counter-example).
@@ -345,33 +359,24 @@ Returns the new file system and heap. -/
 def saveWith (copyMd : Bool) (h : Heap) (fs : Files) (st : NState) (md : Option ObjId) (path : Nat) :
     Except SErr (Files × Heap) :=
   -- metadata = dict(metadata) if metadata else {}
-  let entries0 : MDict := match md with
-    | none => []
-    | some id => (h.dicts id).getD []
+  let entries0 := mdEntries h md
+  -- the object the following insertion writes into: a local dict, or (pre-F5) the caller's non-empty dict
   let callerObj : Option ObjId := if copyMd || entries0.isEmpty then none else md
   -- if hasattr(self, "unitary_dict"): reserved-key check, then insertion
-  let step1 : Except SErr (MDict × Heap) :=
-    match st.ud with
-    | some u =>
-      if ahas entries0 (.str "unitary_dict") then .error .ValueError
-      else
-        let e1 := aset entries0 (.str "unitary_dict") u
-        .ok (e1, match callerObj with
-          | some id => { h with dicts := upd h.dicts id e1 }
-          | none => h)
-    | none => .ok (entries0, h)
-  match step1 with
-  | .error e => .error e
-  | .ok (entries1, h1) =>
+  if st.ud.isSome && ahas entries0 (.str "unitary_dict") then .error .ValueError
+  else
+    let entries1 := saveMeta st entries0
+    let h1 : Heap := match st.ud, callerObj with
+      | some _, some id => { h with dicts := upd h.dicts id entries1 }
+      | _, _ => h
     -- for net in self.networks: if net in metadata.keys(): raise ValueError
     if st.nets.any (fun p => ahas entries1 (.str p.1)) then .error .ValueError
     else
-      let data := stateDicts h1 st.nets
-      -- data.update(**metadata): keyword names must be strings
+      -- data = {net: state_dict()}; data.update(**metadata): keyword names must be strings
       if entries1.any (fun kv => !isStrKey kv.1) then .error .TypeError
       else
-        let data := aupdate data (entries1.map (fun kv => (kv.1, DVal.val kv.2)))
-        .ok (upd fs path (pickle h1 data), h1)
+        .ok (upd fs path (pickle h1 (aupdate (stateDicts h1 st.nets)
+              (entries1.map (fun kv => (kv.1, DVal.val kv.2))))), h1)
 
 /-- `NeuralStateBase.save` as it now is -/
 def save := saveWith true
@@ -465,48 +470,54 @@ def lenOf (v : FVal) (name : String) : Except SErr Nat :=
   | .mv true _ => .error .KeyError
   | .mv false _ => .error .TypeError
 
-/-- `<Kind>.autoload(location)`: keyword arguments are evaluated in source order
-(`unitary_dict` first for the complex and mixed states), a fresh object is constructed from the bias
-lengths of `rbm_am`, then `load` runs on it.  Any error propagates and no object is returned.
-(A `unitary_dict` entry that is not a dictionary of tensors is outside the modelled domain and reported
-as `AttributeError`, which is what a truthy non-dict value produces.) -/
+/-- the constructor arguments `autoload` reads from the file, evaluated in source order:
+`unitary_dict=state_dict["unitary_dict"]` (complex and mixed states only), then the bias lengths of
+`rbm_am`.  (A `unitary_dict` entry that is not a dictionary of tensors is outside the modelled domain and
+reported as `AttributeError`, which is what a truthy non-dict value produces.) -/
+def autoloadArgs (file : File) (kind : Kind) :
+    Except SErr (Option (List (String × Tok)) × Nat × Nat × Option Nat) :=
+  let udE : Except SErr (Option (List (String × Tok))) :=
+    match kind with
+    | .pos => .ok none
+    | _ =>
+      match aget file (.str "unitary_dict") with
+      | none => .error .KeyError
+      | some (.ud d) => .ok (some d)
+      | some _ => .error .AttributeError
+  match udE with
+  | .error e => .error e
+  | .ok ud =>
+    match aget file (.str "rbm_am") with
+    | none => .error .KeyError
+    | some am =>
+      match lenOf am "visible_bias" with
+      | .error e => .error e
+      | .ok nv =>
+        match lenOf am "hidden_bias" with
+        | .error e => .error e
+        | .ok nh =>
+          match kind with
+          | .dens =>
+            match lenOf am "aux_bias" with
+            | .error e => .error e
+            | .ok na => .ok (ud, nv, nh, some na)
+          | _ => .ok (ud, nv, nh, none)
+
+/-- `<Kind>.autoload(location)`: a fresh object is constructed from the arguments read from the file,
+then `load` runs on it.  Any error propagates and no object is returned. -/
 def autoload (h : Heap) (fs : Files) (kind : Kind) (path : Nat) (rand : List (List Tok)) :
     Except SErr (Heap × NState) :=
   match fs path with
   | none => .error .FileNotFoundError
   | some file =>
-    let udE : Except SErr (Option (List (String × Tok))) :=
-      match kind with
-      | .pos => .ok none
-      | _ =>
-        match aget file (.str "unitary_dict") with
-        | none => .error .KeyError
-        | some (.ud d) => .ok (some d)
-        | some _ => .error .AttributeError
-    match udE with
+    match autoloadArgs file kind with
     | .error e => .error e
-    | .ok ud =>
-      match aget file (.str "rbm_am") with
-      | none => .error .KeyError
-      | some am =>
-        match lenOf am "visible_bias" with
-        | .error e => .error e
-        | .ok nv =>
-          match lenOf am "hidden_bias" with
-          | .error e => .error e
-          | .ok nh =>
-            let naE : Except SErr (Option Nat) :=
-              match kind with
-              | .dens => (lenOf am "aux_bias").map some
-              | _ => .ok none
-            match naE with
-            | .error e => .error e
-            | .ok na =>
-              let c := constructSizes h kind nv (some nh) na ud rand
-              let r := load c.1 fs c.2 path
-              match r.2.2 with
-              | some e => .error e
-              | none => .ok (r.1, r.2.1)
+    | .ok (ud, nv, nh, na) =>
+      let c := constructSizes h kind nv (some nh) na ud rand
+      let r := load c.1 fs c.2 path
+      match r.2.2 with
+      | some e => .error e
+      | none => .ok (r.1, r.2.1)
 
 /-! ### the history machine -/
 
